@@ -187,6 +187,13 @@ func c12(c *Ctx) {
 		// seal stores by field
 		seals := map[string][]*ssa.Store{}
 		clears := map[string][]*ssa.Store{}
+		// seals performed by one row of a loop over a literal table of field pointers
+		type rowSeal struct {
+			st    *ssa.Store
+			table *ssa.Alloc
+			row   int
+		}
+		rowSeals := map[string][]rowSeal{}
 		for _, b := range S.Blocks {
 			for _, in := range b.Instrs {
 				st, ok := in.(*ssa.Store)
@@ -194,6 +201,22 @@ func c12(c *Ctx) {
 					continue
 				}
 				if _, isFA := st.Addr.(*ssa.FieldAddr); !isFA {
+					// "*row.value = sealed" with row.value = &clone.F
+					if _, isLoad := st.Addr.(*ssa.UnOp); isLoad {
+						core.EachRow(st, func(table *ssa.Alloc, row int) {
+							if table == nil {
+								return
+							}
+							root, field := addrFields(st.Addr)
+							if _, isSeal := sealStore(st); isSeal {
+								if root == clone {
+									rowSeals[field] = append(rowSeals[field], rowSeal{st, table, row})
+								} else {
+									r.Bad("R-C12.3", sname+" seal target "+field, p.Pos(st.Pos()), "sealed bytes are written into an object that is not the clone (the caller's message is mutated or a different object is sealed)")
+								}
+							}
+						})
+					}
 					continue
 				}
 				root, field := addrFields(st.Addr)
@@ -232,6 +255,27 @@ func c12(c *Ctx) {
 				return 1 - s, ok
 			}}
 			g := core.AnyOf("no wrapper, or "+f+" empty", gNoWrap, gEmpty)
+			if rs := rowSeals[f]; len(rs) > 0 {
+				// the seal block counts for this field only while its row is being iterated
+				core.AvoidHook = func(b *ssa.BasicBlock) bool {
+					for _, x := range rs {
+						if k, bound := core.BoundRow(x.table); bound && k == x.row && b == x.st.Block() {
+							return true
+						}
+					}
+					return false
+				}
+				res := core.CutReachAvoid(p, S, g, avoid, stCall.Block())
+				core.AvoidHook = nil
+				if res.Reachable {
+					r.Add(core.Obligation{Rule: "R-C12.1", Construct: construct, Pos: p.Pos(stCall.Pos()), Verdict: core.Violated,
+						Detail: "with a storage wrapper configured a path reaches Storage.Store without sealing this field (its row of the sealing table can be skipped)", Witness: res.Witness})
+				} else {
+					r.Add(core.Obligation{Rule: "R-C12.1", Construct: construct, Pos: p.Pos(stCall.Pos()), Verdict: core.Discharged,
+						Detail: "sealed by its row of the table loop on every wrapper path before Storage.Store", Guards: res.Instances})
+				}
+				continue
+			}
 			if len(avoid) == 0 {
 				res := core.CutReach(p, S, g, stCall.Block())
 				if res.Reachable {
@@ -305,7 +349,11 @@ func c12(c *Ctx) {
 		aadAgreement(c, "R-C12.2", stp.store, stp.load, stp.typ)
 		// AAD must be a record-bound field
 		for _, ws := range wrapSites(S, true) {
-			okA := ws.aad == "CertificatePublicKeyPkix" || ws.aad == "PublicKeyPkix" || ws.aad == "Id"
+			// (for a sealed field of a sub-record - Current.X / Next.X - the AAD is the same sub-record's field)
+			ai, di := strings.LastIndex(ws.aad, "."), strings.LastIndex(ws.data, ".")
+			last := ws.aad[ai+1:]
+			samePrefix := (ai < 0 && di < 0) || (ai >= 0 && di >= 0 && ws.aad[:ai] == ws.data[:di])
+			okA := samePrefix && (last == "CertificatePublicKeyPkix" || last == "PublicKeyPkix" || last == "Id")
 			r.Check(okA, "R-C12.2", sname+" AAD of "+ws.data, p.Pos(ws.call.Pos()), "bound to the record through ."+ws.aad, "sealed value is not bound to a field identifying its record (AAD="+ws.aad+")")
 		}
 
